@@ -90,6 +90,11 @@ class APIPlaintextFrameHelper(APIFrameHelper):
 
             self._remove_from_buffer()
             self._connection.process_packet(msg_type, packet_data)
+            if self._transport is None:
+                # The connection was closed while processing the packet
+                # (ie. a DisconnectRequest or an invalid message), anything
+                # that is still in the buffer must not be delivered anymore
+                return
             # If we have more data, continue processing
 
     def _error_on_incorrect_preamble(self, preamble: _int) -> None:
